@@ -96,16 +96,29 @@ def read_log(path):
     return out
 
 
-def transcript_summary(log):
+def transcript_summary(log, size=3):
+    """id tag + a content digest of one returned transcript: lengths of the four per-ply lists, the
+    recorded plies, whether the first recorded position is the initial one, one fingerprint per position"""
+    import zlib
+    out = {"lens": None, "plies_seq": None, "first_initial": None, "fps": None}
     try:
-        n = len(log.positions)
-        complete = (n >= 1 and len(log.moves) == n and len(log.probs) == n and len(log.values) == n
-                    and all(p is not None for p in log.positions))
-    except Exception:
+        lens = [len(log.positions), len(log.moves), len(log.probs), len(log.values)]
+        n = lens[0]
+        complete = (n >= 1 and len(set(lens)) == 1 and all(p is not None for p in log.positions))
+        out["lens"] = lens
+        out["plies_seq"] = [int(p.ply) for p in log.positions]
+        if n >= 1:
+            p0 = log.positions[0]
+            out["first_initial"] = bool(p0.ply == 0 and p0.size == size and len(p0.board) == size * size
+                                        and all(len(sq) == 0 for sq in p0.board))
+        out["fps"] = [zlib.crc32(repr((p.ply, p.size, p.board)).encode()) for p in log.positions]
+    except Exception as e:  # noqa
         n, complete = -1, False
+        out["error"] = repr(e)[:200]
     st = getattr(log, "stats", None)
-    return {"id": getattr(st, "game_id", None), "worker": getattr(st, "worker", None), "plies": n,
-            "complete": bool(complete)}
+    out.update({"id": getattr(st, "game_id", None), "worker": getattr(st, "worker", None), "plies": n,
+                "complete": bool(complete)})
+    return out
 
 
 def run_with_bound(fn, bound, progress=None, started=None):
